@@ -84,3 +84,17 @@ META["C20"] = {
     "note": "Templates, classes and hops are enumerated by forking; payloads are symbolic. Trusted: go/ssa, symgo semantics and reflect model (Kind Interface values, addressability), z3.",
     "technique": "symbolic execution of go/ssa + SMT (z3), relational (two-run) step lemma, native replay",
 }
+
+META["C01"] = {
+    "text": "Bounded inductive invariant over every AST node kind (table derived from go/types at check time): the real RunContext/runSingleStmt/invokeExpr/invokeLetExpr/invokeOperator code, executed symbolically with Debug=false on a node whose children are arbitrary outcomes (any value class of the universe through plain or interface-wrapped provenance with symbolic payloads, an error, or a control signal), returns without a panic escaping on the calling goroutine or on one started by `go`, and leaves only well-formed bindings; plus totality of the real ParseSrc on all sources of <= 2|3 symbolic runes.",
+    "design_ref": "DESIGN.md §5 C01",
+    "note": "One step from arbitrary well-formed children + closure of the universe covers programs of every depth; value classes, node kinds and list lengths are enumerated by forking, payloads and indices are solver-decided. Trusted: go/ssa, symgo semantics, its reflect model incl. the panics of every reflect entry point (validated on the repo's scripts in every run).",
+    "technique": "symbolic execution of go/ssa + SMT (z3), per-node-kind inductive step lemma, native replay",
+}
+
+META["C14"] = {
+    "text": "Frame (non-interference) lemma decided per step: in every instance of the C01 step lemma the tree (built, then frozen) and every object that existed after package initialisation (oneLiteral, int64Cache, nilValue, env.Packages, parser tables) are under a write barrier during RunContext; any Store/MapUpdate/delete/in-place append/reflect Set into them is a violation naming the field. Because every node kind runs with arbitrary children this is an inductive step: no evaluation writes the tree or process-wide state, hence repeated and concurrent runs of one tree on separate environments give their solo results.",
+    "design_ref": "DESIGN.md §5 C14",
+    "note": "The 'all goroutine interleavings with the race detector' quantifier is discharged by this frame argument, not by exploring schedules (not applicable to the technique). Native replay compares a structural dump of the tree before and after the run.",
+    "technique": "symbolic execution of go/ssa with a write-barrier monitor, per-node-kind frame lemma, native replay",
+}
